@@ -19,6 +19,16 @@ ENGINES = [
 ]
 NOT_APPLICABLE = {}
 CHECKS = {
+    "C17": dict(
+        engine="hist (on zsym)", level="other", design_ref="DESIGN.md section 4 / C17",
+        technique="symbolic execution (zsym/z3) of from_proto over malformed protos whose name / enum / tensor-field / structure slots are symbolic integers; oracles: termination, exception-or-consistent IR, no file access, serialization fixpoint",
+        text=("Five templates of malformed protos are built directly with protobuf; every slot is a symbolic integer: (names) every name of a two-scope graph with an If body and a function drawn from {'', a, b, c} - dangling, duplicate, empty, shadowing names, cycles and "
+              "unsorted orders arise from equal choices, the initializer optionally external; (enums) undefined/unknown tensor and element types, every attribute type against every populated field; (tensors) dims vs payload, several storage fields, negative and "
+              "huge dims, 13 absurd external-data entries in pairs; (structure) missing graph/op_type/branches, duplicate and recursive functions, stray reference attributes, opset-import defects, duplicate inputs/outputs, deep nesting, IR versions 0 / negative / 2^40. "
+              "On every path from_proto returns or raises an Exception within the time limit; a returned model satisfies the C01 invariant and the documented producer-graph ownership rule; no file is touched while deserializing or reading name/dtype/shape/size; "
+              "to_proto of the result raises or is a fixpoint of deserialize-serialize."),
+        note="Trusted: z3; proxies cross-checked per path; file access observed through an audit hook and os.stat/lstat/readlink wrappers (interpreter reads of its own source are ignored). Wire-format mutations, invalid UTF-8 and undeclared enum numbers (rejected by protobuf itself) are outside the claim.",
+    ),
     "C02": dict(
         engine="hist (on zsym) + protogen/protonorm", level="other", design_ref="DESIGN.md section 4 / C02",
         technique="symbolic execution (zsym/z3) of deserialize-then-serialize over feature-switched protos built directly with protobuf: feature combination and IR version symbolic; oracle: field-by-field equality of normal forms implementing only the documented normalisations",
